@@ -1,0 +1,26 @@
+//go:build verif
+
+package ucfg
+
+// Executable definitions of the ghost functions used by the contracts in
+// contracts_verif.go. They are compiled only with the build tag "verif" and are
+// used by replays of solver counterexamples against the real code (the failed
+// clause is evaluated in Go) and as witness constructors for abstract string
+// functions. Nothing here is reachable from the library without the tag.
+
+import "strconv"
+
+// ghost_parsesInt: strconv.ParseInt(s, 0, 64) succeeds.
+func ghost_parsesInt(s string) bool {
+	_, err := strconv.ParseInt(s, 0, 64)
+	return err == nil
+}
+
+// ghost_intOf: the value strconv.ParseInt(s, 0, 64) yields (0 if it fails).
+func ghost_intOf(s string) int64 {
+	n, _ := strconv.ParseInt(s, 0, 64)
+	return n
+}
+
+// ghost_itoa is the witness constructor for intOf: a string s with intOf(s) == n.
+func ghost_itoa(n int64) string { return strconv.FormatInt(n, 10) }
